@@ -37,6 +37,8 @@ var Valid = []Doc{
 	{"text/css", "a { color : red ; margin : 0px 0px 0px 0px }"},
 	{"text/css", "@media screen { .a , .b > c { background : url( \"x.png\" ) no-repeat ; } } /* c */"},
 	{"text/css", "a{b:url(data:image/svg+xml,%3Csvg%20xmlns%3D%22http%3A%2F%2Fwww.w3.org%2F2000%2Fsvg%22%3E%3Cpath%20d%3D%22M%2010%2010%20L%2020%2020%22%2F%3E%3C%2Fsvg%3E)}"},
+	{"text/css", "a { background : url(data:,%00%01%02%03%04%05%06%07) }"},
+	{"text/css", "a { background : url(data:,hello%2Cworld) ; b : url(\"data:;base64,aGVsbG8=\") }"},
 	{"text/css", "@font-face { font-family : \"A B\" ; src : url(a.woff) } h1 { font : bold 12px/1.0 \"Helvetica\" , sans-serif }"},
 	{"text/css", "a{color:rgb(255,0,0);width:calc( 1px + 2px );transform:translate( 0px , 0.50em )}"},
 	{"text/css", "@import \"x.css\" ; @charset \"utf-8\"; a:hover::before{content:\"\\201C\"}"},
